@@ -250,7 +250,7 @@ def _desugar_map_collect(caller, bi, by_path):
     return _desugar_for_each(caller, bi, by_path, collect_into_vec=True)
 
 
-def _desugar_for_each(caller, bi, by_path, collect_into_vec=False, try_mode=False, fold=False):
+def _desugar_for_each(caller, bi, by_path, collect_into_vec=False, try_mode=False, fold=False, summing=False):
     """`Iterator::for_each(iter, f)` -> an explicit `loop { match iter.next() { Some(x) => f(x), None => break } }` with the closure's body
     inlined, so that rules written for `for` loops see the same shape.  Returns True when the call was rewritten.
     collect_into_vec: the results of f are pushed into a fresh Vec that becomes the value of the call (map + collect)."""
@@ -285,13 +285,19 @@ def _desugar_for_each(caller, bi, by_path, collect_into_vec=False, try_mode=Fals
     nb = len(blocks)
     H, S, B, E, U = nb, nb + 1, nb + 2, nb + 3, nb + 4
     P_ = nb + 5          # push block (map + collect) / `?` on the closure's result (try_for_each)
-    after_f = P_ if (collect_into_vec or try_mode or fold) else H
+    after_f = P_ if (collect_into_vec or try_mode or fold or summing) else H
     l_acc = None
     if fold:
         l_acc = newl("?", "acc")
         blocks[bi]["stmts"].append({"k": "assign", "pl": {"l": l_acc, "p": []}, "rv": {"k": "use", "ops": [copy.deepcopy(acc_op)]}, "sp": sp, "inl": "fold"})
     if try_mode and not (not dest["p"] and locs[dest["l"]]["ty"].startswith("std::result::Result<")):
         return False
+    if summing:
+        sty = locs[dest["l"]]["ty"] if not dest["p"] else "?"
+        if not re.match(r"^[ui](8|16|32|64|128|size)$", sty):
+            return False
+        l_acc = newl(sty, "sum")
+        blocks[bi]["stmts"].append({"k": "assign", "pl": {"l": l_acc, "p": []}, "rv": {"k": "use", "ops": [{"k": "const", "ty": sty, "val": "0_" + sty, "bits": "0"}]}, "sp": sp, "inl": "sum"})
     blocks[bi]["stmts"].append({"k": "assign", "pl": {"l": l_it, "p": []}, "rv": {"k": "use", "ops": [copy.deepcopy(it_op)]}, "sp": sp, "inl": "for_each"})
     into_existing = isinstance(collect_into_vec, dict)
     if into_existing:
@@ -335,7 +341,7 @@ def _desugar_for_each(caller, bi, by_path, collect_into_vec=False, try_mode=Fals
         blocks.append({"stmts": [{"k": "assign", "pl": copy.deepcopy(dest), "rv": {"k": "agg", "ops": [], "agg": "tuple"}, "sp": sp}], "term": {"k": "goto", "target": target, "sp": sp}})
     elif collect_into_vec:
         blocks.append({"stmts": [{"k": "assign", "pl": copy.deepcopy(dest), "rv": {"k": "use", "ops": [{"k": "move", "pl": {"l": l_vec, "p": []}}]}, "sp": sp}], "term": {"k": "goto", "target": target, "sp": sp}})
-    elif fold and not try_mode:
+    elif (fold and not try_mode) or summing:
         blocks.append({"stmts": [{"k": "assign", "pl": copy.deepcopy(dest), "rv": {"k": "use", "ops": [{"k": "move", "pl": {"l": l_acc, "p": []}}]}, "sp": sp}], "term": {"k": "goto", "target": target, "sp": sp}})
     elif fold and try_mode:
         blocks.append({"stmts": [{"k": "assign", "pl": copy.deepcopy(dest), "rv": {"k": "agg", "ops": [{"k": "move", "pl": {"l": l_acc, "p": []}}], "agg": "adt", "adt": "std::result::Result",
@@ -352,6 +358,10 @@ def _desugar_for_each(caller, bi, by_path, collect_into_vec=False, try_mode=Fals
     blocks.append({"stmts": [], "term": {"k": "unreachable", "sp": sp}})
     if fold and not try_mode:
         blocks.append({"stmts": [{"k": "assign", "pl": {"l": l_acc, "p": []}, "rv": {"k": "use", "ops": [{"k": "move", "pl": {"l": l_unit, "p": []}}]}, "sp": sp, "inl": "fold"}],
+                       "term": {"k": "goto", "target": H, "sp": sp}})
+    if summing:
+        blocks.append({"stmts": [{"k": "assign", "pl": {"l": l_acc, "p": []}, "rv": {"k": "binop", "op": "Add", "ops": [{"k": "copy", "pl": {"l": l_acc, "p": []}}, {"k": "move", "pl": {"l": l_unit, "p": []}}]},
+                                  "sp": sp, "inl": "sum"}],
                        "term": {"k": "goto", "target": H, "sp": sp}})
     if try_mode:
         # P_: `match Try::branch(r) { Continue(()) => next iteration, Break(residual) => return FromResidual::from_residual(residual) }`
@@ -521,6 +531,55 @@ def _desugar_extend_map(caller, bi, by_path):
     blocks[mbi]["term"] = {"k": "goto", "target": mt["target"], "sp": mt.get("sp")}
     t["args"] = [it_op, f_op]
     return _desugar_for_each(caller, bi, by_path, collect_into_vec=copy.deepcopy(vec_op))
+
+
+def _desugar_map_sum(caller, bi, by_path):
+    """`iter.map(f).sum::<int>()` -> `let mut s = 0; for x in iter { s = s + f(x) }` (closure inlined)."""
+    blocks = caller["blocks"]
+    t = blocks[bi]["term"]
+    if len(t.get("args", [])) != 1 or t.get("target") is None:
+        return False
+    a = t["args"][0]
+    if a.get("k") not in ("move", "copy") or a["pl"]["p"]:
+        return False
+    d = _single_def_call(caller, a["pl"]["l"])
+    if d is None or not (d[1].get("callee") or "").endswith("iter::Iterator::map") or len(d[1].get("args", [])) != 2 or d[1].get("target") is None:
+        return False
+    mbi, mt = d
+    it_op, f_op = copy.deepcopy(mt["args"][0]), copy.deepcopy(mt["args"][1])
+    cd = _closure_def(caller, f_op)
+    if cd is None or (cd[0] == "closure" and cd[1] not in by_path):
+        return False
+    saved = (copy.deepcopy(blocks[mbi]["term"]), copy.deepcopy(t["args"]))
+    blocks[mbi]["term"] = {"k": "goto", "target": mt["target"], "sp": mt.get("sp")}
+    t["args"] = [it_op, f_op]
+    if _desugar_for_each(caller, bi, by_path, summing=True):
+        return True
+    blocks[mbi]["term"], t["args"] = saved
+    return False
+
+
+def desugar_map_sum(facts, body):
+    """On demand: a copy of `body` in which every `iter.map(f).sum::<integer>()` is an explicit accumulation loop; None when there is none."""
+    from .mir import Body
+    raw = copy.deepcopy(body.raw)
+    closures = {b["path"]: b for b in facts.raw["bodies"] if "{closure" in b["path"]}
+    n = 0
+    for _ in range(MAX_DEPTH):
+        sites = [bi for bi, bb in enumerate(raw["blocks"]) if bb["term"].get("k") == "call" and not bb.get("cleanup")
+                 and (bb["term"].get("callee") or "").endswith("iter::Iterator::sum")]
+        k = 0
+        for bi in sites:
+            if _desugar_map_sum(raw, bi, {p: copy.deepcopy(c) for p, c in closures.items()}):
+                k += 1
+        n += k
+        if not k:
+            break
+    if not n:
+        return None
+    nb = Body(raw, facts)
+    nb.key = getattr(body, "key", raw["path"])
+    return nb
 
 
 def desugar_map_collect(facts, body):
